@@ -329,6 +329,7 @@ func c08XML(args []string) int {
 		`<root xmlns:p="urn:p"><r:x xmlns:r="urn:p"><r:y/></r:x><p:c p:k="1"/></root>`,
 		`<root xmlns:p="urn:p"><p:x xmlns:p="urn:other"><p:y/></p:x><p:c/></root>`,
 		`<root xmlns="urn:d"><x xmlns="urn:e"><y/></x><c/></root>`,
+		"<a k=\"line1\nline2\" t=\"x\ty\" r=\"c&#13;&#10;d\" s=\"  lead and trail  \"><b v=\"&#9;\"/></a>",
 	}
 	names := []string{"a", "b", "p:c", "q:d", "e"}
 	var gen func(depth int) string
@@ -348,6 +349,9 @@ func c08XML(args []string) int {
 		}
 		if r.Intn(4) == 0 {
 			attrs += ` p:j="é&amp;"`
+		}
+		if r.Intn(5) == 0 { // white space inside attribute values: literal and as character references (reported verbatim)
+			attrs += ` w="` + []string{"a\tb", "a\nb", "a&#10;b", "t&#9;x&#13;", " two  spaces ", "\n"}[r.Intn(6)] + `"`
 		}
 		var kids strings.Builder
 		for k := r.Intn(4); k > 0 && depth < 4; k-- {
